@@ -887,3 +887,117 @@ Section Sound.
              rewrite eval_read_as. cbn [v_id]. rewrite lookup_update_same, Hcast. reflexivity.
   Qed.
 End Sound.
+
+(* ---- every emitted instruction carries the statement's time and difficulty mask ---- *)
+Definition at_time (time mask : Z) (st : lstmt) : Prop :=
+  match st with
+  | LInstr t m _ => t = time /\ m = mask
+  | LLabel t _ => t = time
+  | _ => True
+  end.
+
+Section Times.
+  Variable avail : ikind -> bool.
+  Variable auto_casts : bool.
+  Variable rty : Z -> ty.
+  Variable lty : nat -> ty.
+  Variable time mask : Z.
+  Notation lower := (lower avail auto_casts rty lty time mask).
+  Notation ok := (Forall (at_time time mask)).
+
+  Lemma seq_times (a : res) (k : lst -> res) code s' :
+    (forall c s, a = Ok (c, s) -> ok c) -> (forall s1 c s, k s1 = Ok (c, s) -> ok c) ->
+    seq a k = Ok (code, s') -> ok code.
+  Proof.
+    intros Ha Hk H. unfold seq in H. destruct a as [[c1 s1]| | |]; try discriminate.
+    destruct (k s1) as [[c2 s2]| | |] eqn:Ek; try discriminate. inversion H; subst.
+    apply Forall_app. split; [eapply Ha; reflexivity | eapply Hk; exact Ek].
+  Qed.
+
+  Ltac leaf :=
+    cbv beta in *;
+    match goal with
+    | H : ret _ _ = Ok _ |- _ => unfold ret in H; inversion H; subst; repeat constructor
+    | H : instr _ _ _ _ = Ok _ |- _ => unfold instr, ret in H; inversion H; subst; repeat constructor
+    | H : need _ _ _ _ _ _ = Ok _ |- _ => unfold need, instr, ret in H; destruct (avail _); inversion H; subst; repeat constructor
+    end.
+
+  Lemma lower_times : forall f c s code s', lower f c s = Ok (code, s') -> ok code.
+  Proof.
+    induction f as [|f IH]; intros c s code s' H; [discriminate|].
+    assert (Hrec : forall c s code s', lower f c s = Ok (code, s') -> ok code) by exact IH.
+    assert (Htemp : forall tmp_ty (s : lst) (ea : expr) (k : nat -> var -> lst -> res) code s',
+              (forall d tv s1 c s2, k d tv s1 = Ok (c, s2) -> ok c) ->
+              (let '(d, tv, s1) := alloc_temp tmp_ty s in
+               seq (ret [LAlloc d tmp_ty] s1) (fun s2 => seq (lower f (CAssignOp tv None ea) s2) (fun s3 => k d tv s3))) = Ok (code, s') -> ok code).
+    { intros tmp_ty s0 ea k code0 s0' Hk H0. unfold alloc_temp in H0.
+      eapply seq_times; [| | exact H0].
+      - intros c1 s1 E. unfold ret in E. inversion E. repeat constructor.
+      - intros s1 c1 s2 E. eapply seq_times; [| | exact E].
+        + intros c2 s3 E2. eapply Hrec. exact E2.
+        + intros s3 c2 s4 E2. eapply Hk. exact E2. }
+    destruct c; cbn [Lower.lower] in H.
+    - (* CAssignOp *)
+      destruct (classify auto_casts rty lty (te s) rhs) as [a ta|ea tmp_ty read_ty].
+      + unfold assign_intrinsic in H. destruct (var_arg rty lty s v) as [dst tv].
+        destruct (negb _); [discriminate|]. destruct (alt_assign_for avail aop tv) as [[|b]|]; try discriminate; leaf.
+      + assert (Ht : (let '(d, tv, s1) := alloc_temp tmp_ty s in
+               seq (ret [LAlloc d tmp_ty] s1) (fun s2 => seq (lower f (CAssignOp tv None ea) s2)
+                 (fun s3 => seq (lower f (CAssignOp v aop (read_as tv read_ty)) s3) (fun s4 => ret [LFree d] s4)))) = Ok (code, s') -> ok code).
+        { intros H0. eapply (Htemp tmp_ty s ea (fun d tv s3 => seq (lower f (CAssignOp v aop (read_as tv read_ty)) s3) (fun s4 => ret [LFree d] s4))); [|exact H0].
+          intros d tv s1 c s2 E. eapply seq_times; [| | exact E]; [intros; eapply Hrec; eassumption | intros; leaf]. }
+        destruct (negb _); [apply Ht; exact H|].
+        destruct aop; [apply Ht; exact H|].
+        destruct ea; try discriminate; eapply Hrec; exact H.
+    - (* CBinop *)
+      destruct (classify auto_casts rty lty (te s) a) as [la ta|ea tmp_ty read_ty].
+      + destruct (classify auto_casts rty lty (te s) b) as [lb tb|eb tmp_ty read_ty].
+        * destruct (var_arg rty lty s v) as [dst tv]. destruct (negb _); [discriminate|]. leaf.
+        * destruct (_ && _ && _).
+          -- eapply seq_times; [| | exact H]; intros; eapply Hrec; eassumption.
+          -- eapply (Htemp tmp_ty s eb (fun d tv s3 => seq (lower f (CBinop v a op (read_as tv read_ty)) s3) (fun s4 => ret [LFree d] s4))); [|exact H].
+             intros d tv s1 c s2 E. eapply seq_times; [| | exact E]; [intros; eapply Hrec; eassumption | intros; leaf].
+      + destruct (_ && _ && _).
+        * eapply seq_times; [| | exact H]; intros; eapply Hrec; eassumption.
+        * eapply (Htemp tmp_ty s ea (fun d tv s3 => seq (lower f (CBinop v (read_as tv read_ty) op b) s3) (fun s4 => ret [LFree d] s4))); [|exact H].
+          intros d tv s1 c s2 E. eapply seq_times; [| | exact E]; [intros; eapply Hrec; eassumption | intros; leaf].
+    - (* CUnop *)
+      destruct (classify auto_casts rty lty (te s) b) as [lb tb|eb tmp_ty read_ty].
+      + destruct (var_arg rty lty s v) as [dst tv]. destruct (negb _); [discriminate|].
+        unfold unop_intrinsic in H. destruct (alt_unop_for avail op tb) as [[|c bop]|]; try discriminate; leaf.
+      + destruct (_ && _).
+        * eapply seq_times; [| | exact H]; intros; eapply Hrec; eassumption.
+        * eapply (Htemp tmp_ty s eb (fun d tv s3 => seq (lower f (CUnop v op (read_as tv read_ty)) s3) (fun s4 => ret [LFree d] s4))); [|exact H].
+          intros d tv s1 c s2 E. eapply seq_times; [| | exact E]; [intros; eapply Hrec; eassumption | intros; leaf].
+    - (* CTernary *)
+      unfold gen_label in H. cbn [fst snd g te] in H.
+      eapply seq_times; [| | exact H]; [intros; eapply Hrec; eassumption|].
+      intros s3 c3 s4 E3. cbv beta in E3. eapply seq_times; [| | exact E3]; [intros; eapply Hrec; eassumption|].
+      intros s5 c5 s6 E5. cbv beta in E5. eapply seq_times; [| | exact E5]; [intros; leaf|].
+      intros s7 c7 s8 E7. cbv beta in E7. eapply seq_times; [| | exact E7]; [intros; leaf|].
+      intros s9 c9 s10 E9. cbv beta in E9. eapply seq_times; [| | exact E9]; [intros; eapply Hrec; eassumption | intros; leaf].
+    - (* CCondNonCount *)
+      destruct e; try (destruct (negb _); [discriminate | eapply Hrec; exact H]).
+      + destruct op; try (destruct (negb _); [discriminate | eapply Hrec; exact H]). eapply Hrec; exact H.
+      + destruct (is_comparison op); [eapply Hrec; exact H|].
+        destruct op; try (destruct (negb _); [discriminate | eapply Hrec; exact H]); eapply Hrec; exact H.
+    - (* CCondCmp *)
+      destruct (classify auto_casts rty lty (te s) a) as [la ta|ea tmp_ty read_ty].
+      + destruct (classify auto_casts rty lty (te s) b) as [lb tb|eb tmp_ty read_ty].
+        * destruct (match k with KwIf => Some op | KwUnless => negate_comparison op end); [|discriminate].
+          unfold condjmp_intrinsic in H. destruct (negb _); [discriminate|].
+          destruct (alt_condjmp_for avail b0 ta) as [[|]|]; try discriminate; [leaf|].
+          eapply seq_times; [| | exact H]; intros; leaf.
+        * eapply (Htemp tmp_ty s eb (fun d tv s3 => seq (lower f (CCondCmp k a op (read_as tv read_ty) l jt) s3) (fun s4 => ret [LFree d] s4))); [|exact H].
+          intros d tv s1 c s2 E. eapply seq_times; [| | exact E]; [intros; eapply Hrec; eassumption | intros; leaf].
+      + eapply (Htemp tmp_ty s ea (fun d tv s3 => seq (lower f (CCondCmp k (read_as tv read_ty) op b l jt) s3) (fun s4 => ret [LFree d] s4))); [|exact H].
+        intros d tv s1 c s2 E. eapply seq_times; [| | exact E]; [intros; eapply Hrec; eassumption | intros; leaf].
+    - (* CCondLogic *)
+      destruct (match k, op with KwIf, LogicOr | KwUnless, LogicAnd => Some true | KwIf, LogicAnd | KwUnless, LogicOr => Some false | _, _ => None end) as [[|]|]; try discriminate.
+      + eapply seq_times; [| | exact H]; intros; eapply Hrec; eassumption.
+      + unfold gen_label in H. cbn [fst snd g te] in H.
+        eapply seq_times; [| | exact H]; [intros; eapply Hrec; eassumption|].
+        intros s3 c3 s4 E3. cbv beta in E3. eapply seq_times; [| | exact E3]; [intros; eapply Hrec; eassumption|].
+        intros s5 c5 s6 E5. cbv beta in E5. eapply seq_times; [| | exact E5]; intros; leaf.
+  Qed.
+End Times.
